@@ -4,6 +4,7 @@ import (
 	"fmt"
 	"runtime/debug"
 	"sort"
+	"sync"
 	"time"
 
 	"github.com/GuanceCloud/platypus/pkg/ast"
@@ -27,7 +28,9 @@ type probeRec struct {
 	events [][]string
 }
 
-var curProbe *probeRec
+// recorders are keyed by the run's input point (shared by a caller and the scripts it reaches
+// through use(), private to each run), so concurrent runs record separately
+var probeRecs sync.Map
 
 func probeFn(name string) plruntime.FuncCall {
 	return func(ctx *plruntime.Task, fn *ast.CallExpr) *errchain.PlError {
@@ -47,8 +50,9 @@ func probeFn(name string) plruntime.FuncCall {
 		for _, x := range vals {
 			ev = append(ev, x.t.String()+"="+render(x.v))
 		}
-		if curProbe != nil {
-			curProbe.events = append(curProbe.events, ev)
+		if r, ok := probeRecs.Load(ctx.InData()); ok {
+			rec := r.(*probeRec)
+			rec.events = append(rec.events, ev)
 		}
 		if name == "pr" && len(vals) > 0 {
 			ctx.Regs.ReturnAppend(vals[0].v, vals[0].t)
@@ -259,7 +263,7 @@ func runV1Direct(rc runCase) map[string]any {
 	}
 	pt := rc.Point.build()
 	rec := &probeRec{events: [][]string{}}
-	curProbe = rec
+	probeRecs.Store(any(pt), rec)
 	obs := map[string]any{}
 	func() {
 		defer func() {
@@ -286,7 +290,7 @@ func runV1Direct(rc runCase) map[string]any {
 			obs["polls"] = sgp.n
 		}
 	}()
-	curProbe = nil
+	probeRecs.Delete(any(pt))
 	obs["point"] = dumpPoint(pt)
 	obs["trace"] = rec.events
 	obs["stdout"] = hx(takeStdout())
